@@ -433,9 +433,11 @@ def execute(scenario, chooser):
         st['armed_ref'] = armed
         wa = WebApp()
         jc = world.job_control_of(wa)
+        # (imported and made pre-emptible in every run, so that a run's
+        # event log does not depend on what the process ran before)
+        from web import front_end, i_web
+        env.install_web()
         if sc.get('front'):
-            from web import front_end, i_web
-            env.install_web()
             injection.bind_instance(wa).to(i_web.WebApp)
 
         def front_route(path):
